@@ -5,7 +5,7 @@ from .common import *
 CLASS_LAYER = ['Pauli.__matmul__', 'PauliPolynomial.__matmul__', 'Pauli.as_polynomial']
 TV_KERNELS = ['ipow', 'acq', 'acq_mat', 'p0', 'ps0', 'batch_dot']
 BOUNDS = {'quick': 'N<=3 (all strings, all four phases of both operands symbolic); acq_mat / batch_dot lists L<=2',
-          'thorough': 'N<=5; lists L<=3; chains of 4 factors'}
+          'thorough': 'N<=5 (associativity N<=3; N=4 as stretch: its phase conjunct times out at 120 s); lists L<=3; chains of 4 factors'}
 OUTSIDE = 'ill-formed inputs (entries not 0/1, phases outside 0..3); N beyond the bound; torchclifford (see C13)'
 ASSUMPTIONS = ['operands are well formed: string entries in {0,1}, phase indicator in 0..3',
                'trusted base: sigma(x,z)=i^(xz)X^xZ^z and the 16-entry single-qubit product table computed from 2x2 '
@@ -142,7 +142,10 @@ def jobs(tier):
     nmax = 3 if tier == 'quick' else 5
     for N in range(1, nmax + 1):
         J.append(dict(harness=('c01', 'h_matmul'), params=dict(N=N)))
-        J.append(dict(harness=('c01', 'h_assoc'), params=dict(N=N)))
+        if N <= 3:
+            J.append(dict(harness=('c01', 'h_assoc'), params=dict(N=N)))
+        elif N == 4:
+            J.append(dict(harness=('c01', 'h_assoc'), params=dict(N=N), timeout_s=900, claimed=False, label='stretch:h_assoc{"N": 4}'))
         J.append(dict(harness=('c01', 'h_square'), params=dict(N=N)))
     for N in range(1, (3 if tier == 'quick' else 4) + 1):
         for L in range(1, (2 if tier == 'quick' else 3) + 1):
